@@ -42,7 +42,7 @@ def to_xarray(raw):
     for d, co in raw["coords"].items():
         vals = coord_values(co)
         if co["kind"] == "int":
-            coords[d] = np.array(vals, dtype=np.int64)
+            coords[d] = np.array(vals, dtype=co.get("dtype", "int64"))
         elif co["kind"] == "float":
             coords[d] = np.array(vals, dtype=np.float64)
         else:
